@@ -123,9 +123,10 @@ def add_features_calculator(mod: fx.GraphModule, extra_rules: List[Callable] = [
             # TODO: add support for no dim by looking at which dimensions are 1
             if dim is None:
                 raise ValueError("Squeeze without dim not supported")
-            assert dim != 0 and len(input_shape) - dim != 0, \
-                "Squeezing the batch is not supported"
-            if dim == 1 or len(input_shape) - dim == 1:
+            dim = dim % len(input_shape)  # negative indices count from the end, as in torch
+            assert dim != 0, "Squeezing the batch is not supported"
+            if dim == 1:
+                # the (unit) features dimension disappears: the next one takes its place
                 flattened_size = input_shape[2]
                 n.meta['features_calculator'] = FlattenFeaturesCalculator(ifc, flattened_size)
             else:
@@ -215,9 +216,9 @@ def associate_input_features(mod: fx.GraphModule):
             dim = try_get_args(prev, mod, 1, 'dim', None)
             if dim is None:
                 raise ValueError("Squeeze without dim not supported")
-            assert dim != 0 and len(input_shape) - dim != 0, \
-                "Squeezing the batch is not supported"
-            if dim == 1 or len(input_shape) - dim == 1:
+            dim = dim % len(input_shape)
+            assert dim != 0, "Squeezing the batch is not supported"
+            if dim == 1:
                 n.meta['input_features_set_by'] = prev
             else:
                 n.meta['input_features_set_by'] = prev.meta['input_features_set_by']
